@@ -14,7 +14,8 @@ def main(tier, seed, replay):
         k.must_find("MC_Mut_F9", mc_consts(impl="ImplF9"), inv)
         tr = k.validate_profile("core", 150)
         k.validate_profile("rates", 100)
-        k.validate_profile("vis", 100)
+        k.validate_profile("vis_black", 60)
+        k.validate_profile("vis_white", 60)
     else:
         k.model_check("MC_Mut", mc_consts(ops=4, ticks=3, idle=2, cframes=3), inv, timeout=3000)
         k.model_check("MC_Mut2", mc_consts(ents=("e1", "e2"), ops=3, ticks=3, kinds=("spawn", "mutate", "insert")), inv, timeout=3000)
@@ -31,7 +32,8 @@ def main(tier, seed, replay):
         k.must_find("MC_Vis_F14", mc_consts(impl="ImplF14", policy="white", kinds=("spawn", "setvis"), ops=5), inv)
         tr = k.validate_profile("core", 3000)
         k.validate_profile("rates", 2000)
-        k.validate_profile("vis", 2000)
+        k.validate_profile("vis_black", 1500)
+        k.validate_profile("vis_white", 1500)
     k.selftest(tr)
     return k.finish(assumptions=[
         "channels behave as their contracts say (reliable ordered / unreliable: loss, reorder, delay; no duplication, no corruption)",
